@@ -613,6 +613,7 @@ package server
 //@   at call PriorityMutex.Lock after assume sectionInv(self, lockManager) && lockManager.freeLocks != nil && sectionAssumeOnly(lockManager)
 //@   loop#1 invariant waitLock == nil || (!waitLock.timeouted && waitLock.ackCount == 0xff && waitLock.manager == lockManager && waitLock.command != nil && waitLock.locked == 0)
 //@   loop#1 invariant sectionInv(self, lockManager) && lockManager.freeLocks != nil
+//@   at call wakeUpWaitLock assert C19.event.wait-until-set,C04.wake.wait-when-unlocked: !(lockManager.locked == 0 && waitLock.command.TimeoutFlag&0x0200 != 0)
 //@   at call wakeUpWaitLock assert C04.wake.admit,C01.wake.admit: admissible(lockManager, waitLock) || unlimitedClass(lockManager, waitLock)
 //@   at call PriorityMutex.Unlock assert C04.wake.stop: waitLock == nil || (!admissible(lockManager, waitLock) || waitLock.command.TimeoutFlag&0x4000 != 0)
 //@   modifies all
